@@ -165,6 +165,69 @@ def nested_pipe_case(ctx, mods, qconj_inner, qconj_outer):
         ctx.prove_eq(dO[int(o)], dA[i, j, k], 'nested pipe index map agrees with entries')
 
 
+def two_pipes_case(ctx, mods, qconjs, cplx=False):
+    """two pipes combined and split in ONE call (also when no block is compatible with the symbolic qtotal, i.e. the
+    tensor has no stored block), and conj() of a tensor with nested pipes split down to the innermost legs"""
+    npc = Bd.npc()
+    ch = Bd.chinfo(mods)
+    legs = [Bd.leg(ctx, f'l{k}', sz, ch, qc) for k, (sz, qc) in enumerate(zip([[1, 1], [1, 2], [2], [1]], qconjs))]
+    qt = Bd.qvec(ctx, 'qt', ch)
+    A = Bd.tensor(ctx, 'a', legs, qt, cplx=cplx, labels=['a', 'b', 'c', 'd'])
+    ctx.note('stored_blocks_%d' % min(A.stored_blocks, 3))
+    dA = A.to_ndarray()
+    C = A.combine_legs([[0, 1], [2, 3]])
+    C.test_sanity()
+    ctx.prove(C.get_leg_labels() == ['(a.b)', '(c.d)'], 'labels of two pipes')
+    ctx.prove_eq(C.to_ndarray().shape, (legs[0].ind_len * legs[1].ind_len, legs[2].ind_len * legs[3].ind_len), 'shape of two pipes') \
+        if False else ctx.prove(C.shape == (legs[0].ind_len * legs[1].ind_len, legs[2].ind_len * legs[3].ind_len), 'shape of two pipes')
+    # entries sit where the two index maps say
+    p0, p1 = C.legs
+    dC = C.to_ndarray()
+    ref = np.empty(dC.shape, dtype=dC.dtype)
+    for i, j, k, l in itertools.product(*[range(x.ind_len) for x in legs]):
+        ref[int(p0.map_incoming_flat([i, j])), int(p1.map_incoming_flat([k, l]))] = dA[i, j, k, l]
+    ctx.prove_eq(dC, ref, 'two pipes: entries where the index maps say')
+    S = C.split_legs()  # both pipes at once
+    S.test_sanity()
+    ctx.prove(S.rank == 4 and S.shape == A.shape, 'split of two pipes restores rank and shape')
+    ctx.prove(S.get_leg_labels() == ['a', 'b', 'c', 'd'], 'split of two pipes restores labels')
+    for l0, l1 in zip(A.legs, S.legs):
+        try:
+            l0.test_equal(l1)
+        except ValueError as e:
+            ctx.fail('split of two pipes restores every leg', str(e)[:100])
+    if S.shape == A.shape:
+        ctx.prove_eq(S.to_ndarray(), dA, 'split(combine) == id for two pipes in one call')
+    # split only the second / only the first pipe
+    S1 = C.split_legs(1)
+    S1.test_sanity()
+    ctx.prove(S1.get_leg_labels() == ['(a.b)', 'c', 'd'] and S1.shape == (C.shape[0], ) + A.shape[2:], 'split of the second pipe only')
+    S0 = C.split_legs(0)
+    S0.test_sanity()
+    ctx.prove(S0.get_leg_labels() == ['a', 'b', '(c.d)'] and S0.shape == A.shape[:2] + (C.shape[1], ), 'split of the first pipe only')
+    # nested pipe, conjugated, then split down to the innermost legs: every leg is the conjugate of the original one
+    N = A.combine_legs([0, 1]).combine_legs([0, 1])  # ((a.b).c), d
+    Nc = N.conj()
+    Nc.test_sanity()
+    B = Nc.split_legs(0).split_legs(0)
+    B.test_sanity()
+    ctx.prove(B.get_leg_labels() == ['a*', 'b*', 'c*', 'd*'], 'labels after conj of nested pipes and split')
+    Ac = A.conj()
+    for l0, l1 in zip(Ac.legs, B.legs):
+        try:
+            l0.test_equal(l1)
+        except ValueError as e:
+            ctx.fail('conj of nested pipes conjugates the innermost legs', str(e)[:100])
+        ctx.prove(l0.qconj == l1.qconj, 'conj of nested pipes: direction of the innermost legs')
+    ctx.prove_eq(B.to_ndarray(), np.conj(dA) if cplx else dA, 'split(conj(nested combine)) == conj')
+    ctx.prove_eq(B.qtotal, Ac.qtotal, 'qtotal after conj of nested pipes')
+    try:
+        for la, lb in zip(A.legs, B.legs):
+            la.test_contractible(lb)
+    except ValueError as e:
+        ctx.fail('legs after conj+split contractible with the original legs', str(e)[:100])
+
+
 def leg_ops_case(ctx, sizes, mods, qconj, op):
     npc = Bd.npc()
     ch = Bd.chinfo(mods)
@@ -342,6 +405,10 @@ def CASES(tier, seed):
         for qi, qo in ((1, 1), (-1, 1), (1, -1)):
             cases.append(dict(name=f"nested[mod={mods},inner={qi},outer={qo}]", fn='nested_pipe_case',
                               params=dict(mods=mods, qconj_inner=qi, qconj_outer=qo), opts=O))
+    for mods in ([1], [2], [3]):
+        for qcs in ((1, -1, 1, -1), (1, 1, -1, -1)):
+            cases.append(dict(name=f"two_pipes[mod={mods},qconj={qcs}]", fn='two_pipes_case',
+                              params=dict(mods=mods, qconjs=list(qcs), cplx=(mods == [1] and qcs[1] == -1)), opts=O))
     # leg operations
     for mods in ([1], [2], [3]):
         for op in ('sort', 'sort_nobunch', 'bunch', 'project', 'extend', 'flip', 'get_qindex', 'from_qflat', 'from_qdict',
